@@ -466,6 +466,40 @@ fn main() {
             }
         }
         res.cov("host_date_skew_requests", skew_n);
+        // family: a kept-alive connection that is used a while after it was opened and then again later: each request carries
+        // the proxy's time at that request (2.5 s gaps: the tolerance is one second)
+        let mut ka_date_n = 0u64;
+        {
+            w.set_key(Some(K1));
+            let (clabel, rec, hidx, elevated) = &callers[1];
+            let host = w.hosts.all()[*hidx];
+            host.set_responder(std::sync::Arc::new(|_m: &Msg, _c, _i| Action::Reply(vec![simple_response(200, &[], b"ok")])));
+            if let Ok(mut c) = w.connect(Some(next_port()), Some(rec)) {
+                for step in 0..3usize {
+                    std::thread::sleep(Duration::from_millis(2500));
+                    let hv: Vec<(&str, &[u8])> = vec![("Host", b"metadata"), ("Metadata", b"true")];
+                    let raw = build_request("GET", "/metadata/instance?api-version=2021-02-01", &hv, None, None);
+                    let cur = host.cursor();
+                    let t0 = hostcheck::now_unix();
+                    let st = c.send(&raw).map_err(|e| e.to_string()).and_then(|_| c.read_response(false, Duration::from_secs(10)).map(|m| m.status()));
+                    let t1 = hostcheck::now_unix();
+                    evals += 1;
+                    ka_date_n += 1;
+                    let case = json!({"family": "kept-alive-connection-used-later", "caller": clabel, "request_on_connection": step + 1, "seconds_since_connect": 2.5 * (step + 1) as f64});
+                    nontrivial.insert(case.to_string());
+                    let sent_names: Vec<String> = hv.iter().map(|h| h.0.to_lowercase()).collect();
+                    let got = host.requests_since(cur);
+                    if st != Ok(200) || got.len() != 1 {
+                        res.violation("not-relayed", &format!("request {} on a kept-alive connection: status {:?}, {} requests at host", step + 1, st, got.len()), case.clone());
+                        break;
+                    }
+                    relayed += 1;
+                    judge(&mut res, &got[0].1, *elevated, t0, t1, true, &[], &sent_names, &case);
+                }
+                c.close();
+            }
+        }
+        res.cov("kept_alive_connection_used_later_requests", ka_date_n);
         // date stays current over time (thorough only: needs > 60 s of real time)
         if thorough {
             w.set_key(Some(K1));
